@@ -216,7 +216,7 @@ def run(tier, seed):
         "bounds": "extents <= 4; every monitor event carries its path condition over all sparse inputs in the box",
         "functions_exercised": "whole compiler in metrics mode (teaal.trans.collector.Collector, teaal.ir.metrics.Metrics, teaal.ir.hardware.Hardware)",
         "vacuity": "a program without beginCollect is inconclusive; seeded/C12 mutants are reported",
-        "exhaustive": True,
+        "exhaustive": tier == "thorough",
     }
     return runner.finish(PROP, tier, seed, "translation_validation", res, t0, cov, ASSUME)
 
